@@ -49,7 +49,11 @@ def observe(c, decls, with_values, nvals, features=(), per=40, tag=""):
             p = rsprog.run_prog(exe)
             vlib.discard(exe)
             if p.returncode != 0:
-                raise vlib.ToolError("derive program %s crashed: %s" % (src, p.stderr[-1500:]))
+                # producing the metadata of derived types of the supported grammar PANICS (type_info(), registration or
+                # encoding): that is an observation about the library, not a tool problem
+                rp = c.replay_file("derived_metadata_panics%s.rs" % tag, open(src).read())
+                c.violation("panic", "a program that derives TypeInfo for declarations of the supported grammar panics while producing their metadata: %s" % (p.stderr.strip().splitlines() or ["?"])[0][:300], rp)
+                continue
             f.write(json.dumps({"ev": "Decls", "decls": g}) + "\n")
             f.write(p.stdout)
     c.add("programs", len(jobs)); c.add("declarations", len(decls)); c.add("evaluations", len(decls))
@@ -118,12 +122,20 @@ def item_src(it):
     if k == "crate": return "crate = ::scale_info"
     if k == "replace_segment": return 'replace_segment("a", "b")'
     if k == "unknown": return "frobnicate"
+    if k in ("bare", "namevalue"): return None      # not an item of a list: an attribute of its own (see attr_program)
     raise ValueError(k)
 
 def attr_program(items, split):
     """split: one #[scale_info(..)] per item, or all items in one attribute"""
-    srcs = [item_src(i) for i in items]
-    attrs = "".join("#[scale_info(%s)]\n" % s for s in srcs) if split else ("#[scale_info(%s)]\n" % ", ".join(srcs) if srcs else "")
+    OWN = {"bare": "#[scale_info]\n", "namevalue": '#[scale_info = "skip_type_params(T)"]\n'}
+    if split:
+        attrs = "".join(OWN[i["k"]] if i["k"] in OWN else "#[scale_info(%s)]\n" % item_src(i) for i in items)
+    else:      # the list items in one attribute, the attributes that are no lists around it in their positions
+        srcs = [item_src(i) for i in items if i["k"] not in OWN]
+        lst = "#[scale_info(%s)]\n" % ", ".join(srcs) if srcs else ""
+        first_own = next((j for j, i in enumerate(items) if i["k"] in OWN), None)
+        own = "".join(OWN[i["k"]] for i in items if i["k"] in OWN)
+        attrs = (own + lst) if first_own == 0 else (lst + own)
     return ATTR_PRE + "#[derive(TypeInfo)]\n" + attrs + "struct S<T: Cfg, U> { m: PhantomData<T>, n: PhantomData<U>, k: u8 }\nfn main() { ok::<S<u8, u16>>(); }\n"
 
 def c20_derive_half(c, tier):
